@@ -157,8 +157,8 @@ struct World {
 
 /// Why a history could not be executed to the end.
 enum Stop {
-    /// not a verdict: e.g. jj refused to write a commit whose id already exists because two
-    /// jj-made rewrites fell into the same millisecond
+    /// not a verdict: jj refused to write a commit identical to an existing one, or the
+    /// precondition of a raw setter does not hold at that point of the transaction
     Inconclusive(String),
     /// the property (or a panic / error on the way) — already reported
     Violation,
@@ -1362,7 +1362,7 @@ fn main() {
     extra.insert("per_depth_states".into(), json!(stats.per_depth_states));
     extra.insert("max_depth_completed".into(), json!(stats.max_depth_completed));
     extra.insert("invalid_or_inconclusive_histories".into(), json!(stats.invalid));
-    extra.insert("inconclusive_same_millisecond".into(), json!(c.inconclusive.get()));
+    extra.insert("inconclusive_history_executions".into(), json!(c.inconclusive.get()));
     extra.insert("operations_checked".into(), json!(c.ops_checked.get()));
     extra.insert("merged_operations_checked".into(), json!(c.merged_ops.get()));
     extra.insert(
@@ -1422,7 +1422,9 @@ fn main() {
             "set_wc_commit (raw setter) is only applied to visible commits; edit/check_out/bookmarks/new commits also target hidden ones".into(),
             "all trees are empty; commits made by the harness carry a description (not discardable), commits made by check_out do not".into(),
             "ancestry comes from parent lists read from the commit objects".into(),
-            "a history in which jj refuses to write a commit because the same id already exists (two jj-made rewrites in one millisecond) is dropped as inconclusive and counted".into(),
+            "a history is dropped as inconclusive (and counted) when jj refuses to write a commit because an identical commit already exists, or when the target of a raw set_wc_commit was hidden by an earlier action of the same transaction".into(),
+            "commit and operation timestamps come from a harness clock (one value per transaction), so ids and the merge order of concurrent operations are a function of the history; the other merge order is not explored".into(),
+            "vacuity counters include the re-execution of history prefixes".into(),
             "states are merged on an exact canonical form of the attributed commit graph (all table commits, visible and hidden) per initial DAG".into(),
         ],
     };
